@@ -255,10 +255,12 @@ def layout_facts(ctx):
     pre = find_function(tp, "_apply_pre_parsing_expansions")
     if pre is None:
         raise AnalysisError("_apply_pre_parsing_expansions not found", anchor=P2 + "::_apply_pre_parsing_expansions")
-    pats = [c for c in ast.walk(pre) if isinstance(c, ast.Call) and src(c.func) in ("re.sub", "re.match", "re.search", "re.fullmatch") and c.args and isinstance(c.args[0], ast.Constant)]
+    from ..source import regex_call
+    pats = [(c, regex_call(c, tp)) for c in ast.walk(pre) if isinstance(c, ast.Call)]
+    pats = [(c, r) for c, r in pats if r is not None and r[0] in ("sub", "match", "search", "fullmatch")]
     ctx.floor("C13.layout", P2, "pre-parsing rewrite patterns", len(pats), 1)
-    for c in pats:
-        pat = c.args[0].value
+    for c, r in pats:
+        pat = r[1]
         # constant evaluation of the literal pattern on probe lines: the statement alone, and the same statement followed by layout only
         bad = None
         try:
